@@ -251,6 +251,50 @@ PROPS['C20'] = dict(
     explanation='See C19.',
 )
 
+PROPS['C03'] = dict(
+    units=['k_tok'], level='proof', design_ref='6/C03',
+    technique='CBMC dfcc function contracts with loop contracts on MessageBase::extract_element(const char*, unsigned, char*, char*) and extract_element_fixed_width (clang AST of message.hpp), '
+              'and the three tokeniser calls of MessageBase::extract_header checked against the callee contract with --replace-call-with-contract (call-site precondition obligations)',
+    text='Tokeniser safety (proved, unbounded in the input length up to 8192 by loop contracts): given output buffers of input length + 1 bytes, extract_element reads only inside the input, writes only '
+         'inside the two buffers, consumes at most the input and a non-zero result ends on an SOH; extract_element_fixed_width likewise with a value buffer of val_sz + 1 bytes (it may report one '
+         'byte more than the input when the data runs to the very end: the separator is accounted for, not checked -- stated in the contract). Call sites: extract_header passes a 32-byte tag '
+         'buffer, a 2048-byte value buffer and the caller\'s 32-byte len / mtype buffers for inputs of up to 8192 bytes: the callee\'s capacity preconditions are REFUTED there -- known findings, '
+         'reproduced with ASan on the real code (stack-buffer-overflow from a 59-byte input). NOT decided: the other tokeniser call sites (MessageBase::decode, decode_group, FIXReader::read), '
+         'Message::factory / decode as a whole (totality, exception types), the encode side (Message::encode(f8String&) into a fixed stack buffer, Session::send_process).',
+    note='only the two char* tokenisers and extract_header\'s call sites are under contract; isdigit (C locale), memcpy (k-witness model), std::string data()/size() ASSUMED',
+    trusted_base=COMMON_TRUST,
+    explanation='The callee contract states the weakest simple capacity condition (buffers as long as the input plus terminator); each caller is then checked against it, so a fixed-size stack buffer fed '
+                'by network input shows up as a failed, named precondition at that call site.',
+)
+
+PROPS['C06'] = dict(
+    units=['k_tok'], level='proof', design_ref='6/C06',
+    technique='CBMC dfcc function + loop contract on MessageBase::extract_element_fixed_width (clang AST of message.hpp) with a k-witness memcpy model',
+    text='Decoder side of the fixed-width extraction only: for every input, tag length and declared data length (all up to 8192) a non-zero result is exactly tag + 1 + data length + 1, the data '
+         'lies inside the input, and every data byte is copied to the value buffer unchanged WHATEVER it is (SOH, "=", anything; ghost witness index), followed by a terminator. '
+         'NOT decided: the ft_Length branch of MessageBase::decode that calls it (the lasttag+1 / data-type checks, the 2047-byte limit), decode_group (which has no such branch: data '
+         'inside groups), the Field<f8String> constructor from const char* (stops at an embedded NUL), and the encode side.',
+    note='one function only; memcpy is an ASSUMED k-witness model; isdigit C locale',
+    trusted_base=COMMON_TRUST,
+    explanation='See C03.',
+)
+
+PROPS['C22'] = dict(
+    units=['k_hb'], level='proof', design_ref='6/C22',
+    technique='CBMC harness contracts on Session::heartbeat_service (one supervision tick under a virtual clock), handle_test_request, handle_heartbeat, do_state_change and '
+              'Connection::set_hb_interval / get_hb_interval20pc extracted from the clang AST; sending, message generation, the clock and the gate are assumed models with a ghost send log',
+    text='Per supervision tick (proved-modular, for every heartbeat interval 1..86400 s, every pair of last-sent / last-received instants, both clock readings, every session state): a Heartbeat '
+         'without TestReqID is sent exactly when at least H whole seconds have passed since the last send; when more than H + H/5 whole seconds have passed since the last receive, a TestRequest is '
+         'sent and the state becomes test_request_sent, or -- if a TestRequest is already outstanding -- a Logout is sent (not incrementing the sequence number), the session is stopped and the '
+         'state becomes session_terminated; nothing else is sent, the state is otherwise unchanged, nothing happens when shut down or not connected; the margin the setter stores is H + H/5. '
+         'An inbound TestRequest is answered by exactly one Heartbeat carrying the same TestReqID; an inbound Heartbeat while a TestRequest is outstanding returns the state to continuous. '
+         'Because the per-tick contract is universally quantified over the clock readings and the timestamps, it covers every timeline of send/receive instants and ticks. NOT decided: that ticks '
+         'occur (timer thread, C31), update_received/update_sent bookkeeping in send_process and the reader, generate_heartbeat attaching the TestReqID field (assumed).',
+    note='whole-second granularity of the comparisons is made explicit in the specification; generate_* and send are ASSUMED models; the gate enforce is K-seq',
+    trusted_base=COMMON_TRUST,
+    explanation='The tick is loop-free; the two clock reads are two ghost instants, so "all timelines" reduces to all values of four timestamps and the state.',
+)
+
 # ---------------------------------------------------------------- native replayers
 import os
 from vlib import replay as _rp
@@ -403,7 +447,7 @@ def _replay_k_seq(oid, inputs, trace, wd):
     exe = _rp.build_native(os.path.join(_rp.VERIF, 'replay', 'k_seq.cpp'), os.path.join(wd, 'replay_k_seq'), sanitize=False, timeout=900,
                            extra=['/repo/utests/mockConnection.cpp', '-I/repo/utests', '-L/repo/utests/.libs', '-lutest', '-L/repo/runtime/.libs', '-lfix8',
                                   '-Wl,-rpath,/repo/utests/.libs', '-Wl,-rpath,/repo/runtime/.libs'])
-    which = 'second_gap' if 'resend_pending' in oid else 'logon_gap' if 'logon_with_a_higher' in oid else 'gate'
+    which = 'second_gap' if 'resend_pending' in oid else 'logon_gap' if 'logon_with_a_higher' in oid else 'tick' if 'C22' in oid else 'gate'
     os.makedirs(os.path.join(wd, 'seqscratch'), exist_ok=True)
     import subprocess
     p = subprocess.run([exe, 'search', which], cwd=os.path.join(wd, 'seqscratch'), stdout=subprocess.PIPE, stderr=subprocess.STDOUT, text=True, timeout=300)
@@ -411,7 +455,19 @@ def _replay_k_seq(oid, inputs, trace, wd):
                 reproduced=p.returncode == 1)
 
 
+def _replay_k_tok(oid, inputs, trace, wd):
+    R = _rp.astdump.REPO
+    exe = _rp.build_native(os.path.join(_rp.VERIF, 'replay', 'k_tok.cpp'), os.path.join(wd, 'replay_k_tok'),
+                           extra=[R + '/runtime/message.cpp', '-L/repo/runtime/.libs', '-lfix8', '-Wl,-rpath,/repo/runtime/.libs'], timeout=900)
+    which = 'header_tag' if 'tag_capacity' in oid else 'header_val' if 'val_capacity' in oid else 'tok'
+    rc, o = _rp.run_native(exe, [which])
+    asan = 'AddressSanitizer' in o
+    return dict(steps=[dict(kind='native replay (%s): real extract_header / tokenisers under ASan' % which, rc=rc, asan_report=asan, output=o[-1800:])], reproduced=(rc != 0 or asan))
+
+
+replayers['k_tok'] = _replay_k_tok
 replayers['k_seq'] = _replay_k_seq
+replayers['k_hb'] = _replay_k_seq
 replayers['k_mper'] = _replay_k_mper
 replayers['k_enc'] = _replay_k_enc
 replayers['k_sched'] = _replay_k_sched
